@@ -203,7 +203,7 @@ class Check(common.Check):
     THEOREMS = ['Sc3Verif.C03.' + t for t in (
         'mce_law', 'wrapAt_spec', 'mce_scalar', 'mce_untouched', 'mce_path_law', 'mce_calls_in_path_order',
         'mce_one_call_per_path', 'mce_unit_count_le', 'mce_unit_count_flat', 'mce_shape_indep', 'mce_no_error',
-        'wrap_extend_law', 'binop_law', 'unop_law', 'binop_container', 'flop_law', 'perform_law',
+        'wrap_extend_law', 'binop_law', 'unop_law', 'narop_law', 'binop_container', 'flop_law', 'perform_law',
         'out_flatten', 'silence_only_replaces_zeros', 'silence_leaves_no_zero', 'out_no_literal_zero',
         'silence_levels')]
     N_QUICK = 3000
@@ -328,11 +328,15 @@ class Check(common.Check):
         return {'k': 'op', 'op': name, 'a': a, 'b': b, 'pre': pre}
 
     def gen_meth(self, rng):
-        tab = [m for m in self.tables()['perform'] if m['kind'] == 'perform' or m['name'] == 'madd']
+        tab = [m for m in self.tables()['perform'] if m['kind'] == 'perform' or m['name'] in ('madd', 'min_nyquist')]
         m = rng.choice(tab)
         pre = [rng.choice(['ar', 'ar', 'kr']) for _ in range(rng.randint(1, 5))]
         npre = len(pre)
         self_ = [{'u': rng.randrange(npre)} for _ in range(rng.choice([1, 2, 2, 3, 4]))]
+        if rng.random() < 0.06:
+            nm = rng.choice(['dup', 'sum'])
+            return {'k': 'meth', 'name': nm, 'self': self_, 'args': [rng.randint(1, 4)] if nm == 'dup' and rng.random() < 0.7 else [],
+                    'pre': pre, 'strs': STR_VOCAB}
         n = rng.randint(m['nreq'], len(m['params']))
         args = []
         for p in m['params'][:n]:
